@@ -25,6 +25,9 @@ MANIFEST = dict(
 S = vfy.PH
 
 
+LONG_NAME = ("\u00e9\u20ac\U0001F600x" * 24).encode()     # 2-, 3-, 4- and 1-byte characters, 240 bytes
+
+
 def kinds(rootname):
     """(tag, components that replace a plain path, where the decoy must be planted relative to the
     sandbox so that the escaped path finds matching bytes; None = stays inside / nothing to plant)"""
@@ -41,6 +44,25 @@ def kinds(rootname):
         ("absolute path split one directory per component", [vfy.PHSPLIT, b"outside", b"decoy"], "outside"),
         ("split absolute path after plain ones", [b"d1", vfy.PHSPLIT, b"outside", b"decoy"], "outside"),
         ("descend then climb out", [b"d1", b"..", b"..", b"decoy"], "beside-d1"),
+        # added after seeded change C13-4 (back-slashes turned into separators when the path is joined, after the screening):
+        # on this platform a back-slash is an ordinary byte of a file name, so these name files INSIDE the root that do not
+        # exist, while the decoy waits where the translated path would point
+        ("back-slash spelling: ..\\decoy in one component", [b"..\\decoy"], "beside"),
+        ("back-slash spelling: ..\\..\\decoy in one component", [b"..\\..\\decoy"], "above"),
+        ("back-slash spelling: absolute path in one component", [S.replace(b"/", b"\\") + b"\\outside\\decoy"], "outside"),
+        ("back-slash spelling: descend then climb out", [b"d1\\..\\..\\decoy"], "beside-d1"),
+        # added after seeded change C13-6 (the refused component is cut at a byte offset for the error message): long
+        # components of multi-byte characters, shifted so that every small offset falls inside a character in one of them
+        ("long non-ASCII escaping component", [b"../" + LONG_NAME], ("beside", LONG_NAME)),
+        ("long non-ASCII escaping component, shifted 1", [b"../a" + LONG_NAME], ("beside", b"a" + LONG_NAME)),
+        ("long non-ASCII escaping component, shifted 2", [b"../ab" + LONG_NAME], ("beside", b"ab" + LONG_NAME)),
+        ("long non-ASCII escaping component, shifted 3", [b"../abc" + LONG_NAME], ("beside", b"abc" + LONG_NAME)),
+        ("long non-ASCII plain component (stays inside)", [LONG_NAME], None),
+        # added after seeded change C13-5 (a second, unscreened spelling of `path`): the whole path as ONE byte string
+        ("path as a joined byte string: ../decoy", b"../decoy", "beside"),
+        ("path as a joined byte string: d1/../../decoy", b"d1/../../decoy", "beside-d1"),
+        ("path as a joined byte string: absolute", S + b"/outside/decoy", "outside"),
+        ("path as a joined byte string (stays inside)", b"d1/inner", "d1/inner"),
         (".. and back into the root (stays inside)", [b"..", rootname, b"inner"], "inner"),
         ("separator inside a component (stays inside)", [b"d1/inner"], "d1/inner"),
         ("'.' component (stays inside)", [b".", b"inner"], "inner"),
@@ -64,7 +86,7 @@ def hostile_case(r, kind, pos, mode, rootname=b"root"):
         datas[pos] = r.randbytes(r.randint(1, 9))
     files = [([b"f%d" % i], datas[i]) for i in range(n)]
     w = vfy.World(rootname, p, files, True, r.random() < 0.5)
-    w.info[b"files"][pos][b"path"] = list(comps)      # pieces and md5sum stay those of the decoy's bytes
+    w.info[b"files"][pos][b"path"] = comps if isinstance(comps, bytes) else list(comps)   # pieces and md5sum stay the decoy's
     vfy.tree_del(w.content, [b"f%d" % pos])
     tree, arg, inp = vfy.place(w, mode, r, True)
     # where the content root is, relative to the sandbox
@@ -72,7 +94,9 @@ def hostile_case(r, kind, pos, mode, rootname=b"root"):
     if tag.startswith(".. and back") and mode == "content":
         w.info[b"files"][pos][b"path"] = [b"..", b"the content", b"inner"]
     decoy = datas[pos]
-    if where == "beside":
+    if isinstance(where, tuple):
+        vfy.tree_set(tree, rootloc[:-1] + [where[1]], decoy)
+    elif where == "beside":
         vfy.tree_set(tree, rootloc[:-1] + [b"decoy"], decoy)
     elif where == "above":
         if len(rootloc) < 2:
